@@ -46,9 +46,35 @@ def font_record(case):
         "srcHgt": {n: ufo["glyphs"][n].get("h", 0) for n in names},
     }
     try:
-        otf = fn(font, **kwargs)
+        via = case.get("via", "static")
+        if via == "static":
+            otf = fn(font, **kwargs)
+        else:
+            # the same UFO as the default master of a two-master family (the other master is wider): the variable font /
+            # the first interpolatable master must carry the default master's order, character map and metrics
+            import copy
+
+            from . import dsbuild
+
+            u1 = copy.deepcopy(ufo)
+            for g in u1["glyphs"].values():
+                if g["w"]:
+                    g["w"] += 20 * PS
+            u1["info"] = dict(u1.get("info") or {}, styleName="Wide")
+            fam = {"axes": [{"name": "Weight", "tag": "wght", "min": 0, "default": 0, "max": 8}],
+                   "masters": [{"loc": {"Weight": 0}, "ufo": ufo, "name": "M0"}, {"loc": {"Weight": 8}, "ufo": u1, "name": "M1"}]}
+            ds = dsbuild.build_designspace(fam, lib)
+            for s_ in ds.sources:
+                for name, vo in (ufo.get("verticalOrigin") or {}).items():
+                    s_.font[name].verticalOrigin = vo
+            if via == "vf":
+                otf = (ufo2ft.compileVariableTTF if case["flavor"] == "tt" else ufo2ft.compileVariableCFF2)(ds, **kwargs)
+            else:
+                dfn = ufo2ft.compileInterpolatableTTFsFromDS if case["flavor"] == "tt" else ufo2ft.compileInterpolatableOTFsFromDS
+                otf = dfn(ds, **kwargs).sources[0].font
     except Exception as e:  # noqa
         rec["ret"] = {"err": type(e).__name__}
+        rec["_msg"] = str(e)[:200]
         return rec
     # derived fields as the compile function returns them (fontTools recomputes several of them when saving)
     mem = {}
